@@ -84,6 +84,45 @@ class MainSampler(MainSamplerNoEpoch):
         return perm(self.seed, e, len(self.data_source), self.n)
 
 
+class MainSamplerEager(MainSampler):
+    """fixes its order inside iter() (torch's DistributedSampler does): the epoch has to be announced BEFORE iter()"""
+
+    def __iter__(self):
+        order = list(self.iteration(self.epoch))
+
+        def gen():
+            for i in order:
+                self.yielded += 1
+                yield i
+        return gen()
+
+
+class MainSamplerStateful(MainSamplerNoEpoch):
+    """no set_epoch, but every iteration differs (a shuffler drawing from its own generator, like RandomSampler):
+    the k-th iter() gives the k-th order"""
+
+    def __init__(self, data_source, n, seed, log):
+        super().__init__(data_source, n, seed, log)
+        self.k = 0
+
+    def iteration(self, e):
+        return perm(self.seed, e, len(self.data_source), self.n)
+
+    def __iter__(self):
+        order = list(self.iteration(self.k))
+        self.k += 1
+        for i in order:
+            self.yielded += 1
+            yield i
+
+
+def main_class(c):
+    mk = c.get("mk", "lazy")
+    if not c["se"]:
+        return MainSamplerStateful if mk == "stateful" else MainSamplerNoEpoch
+    return MainSamplerEager if mk == "eager" else MainSampler
+
+
 class SideSampler:
     def __init__(self, data_source, it):
         self.data_source, self.it = data_source, list(it)
@@ -93,6 +132,23 @@ class SideSampler:
 
     def __iter__(self):
         return iter(self.it)
+
+
+class SideSamplerEpoch(SideSampler):
+    """a side sampler that would reshuffle (here: rotate) when told an epoch.  The scheduler as specified never tells
+    interleaved samplers an epoch, so the order stays `it`; whatever a scheduler does with it has to be part of the
+    checkpoint (used for C06 only: the resumed stream is compared with the uninterrupted one)"""
+
+    def __init__(self, data_source, it):
+        super().__init__(data_source, it)
+        self.epoch = 0
+
+    def set_epoch(self, e):
+        self.epoch = int(e)
+
+    def __iter__(self):
+        k = self.epoch % max(len(self.it), 1)
+        return iter(self.it[k:] + self.it[:k])
 
 
 class StampCollator:
@@ -143,14 +199,14 @@ def build(c, resume, log, seed):
     """c: spec cfg (dict). resume: none|epoch|update|sample. Returns (sampler, twin_main)"""
     from kappadata.samplers.interleaved_sampler import InterleavedSampler, InterleavedSamplerConfig
     main_ds = TagDataset(0, c["md"])
-    cls = MainSampler if c["se"] else MainSamplerNoEpoch
+    cls = main_class(c)
     main = cls(main_ds, c["N"], seed, log)
     configs = []
     for i, s in enumerate(c["sides"], start=1):
         ds = TagDataset(i, s["dlen"])
         it = s["iter"] if s["iter"] else range(s["len"])
         configs.append(InterleavedSamplerConfig(
-            sampler=SideSampler(ds, it),
+            sampler=(SideSamplerEpoch if c.get("react") else SideSampler)(ds, it),
             every_n_epochs=s["ee"] or None, every_n_updates=s["eu"] or None, every_n_samples=s["es"] or None,
             collator=StampCollator(i), batch_size=s["bs"] or None,
         ))
@@ -189,7 +245,36 @@ def ev_se(e):
     return dict(a="se", full=False, idx=int(e), src=-1, pos=-1, col=-9)
 
 
+class Diverge(BaseException):
+    pass
+
+
+DIVERGED = [0]
+
+
+def _on_timer(signum, frame):
+    raise Diverge()
+
+
 def record(c, resume, mode, seed, workers=0):
+    """record_() under a CPU-time deadline: a scheduler that spins without yielding is an observation, not a hang"""
+    import signal
+    old = signal.signal(signal.SIGVTALRM, _on_timer)
+    if DIVERGED[0] >= 5:
+        # enough non-terminating runs were observed (each one is a violation): do not spend the deadline on more
+        return [dict(a="err:DivergeSkipped", full=False, idx=-1, src=-1, pos=-1, col=-9)]
+    signal.setitimer(signal.ITIMER_VIRTUAL, 4.0 if mode != "dl" else 60.0)
+    try:
+        return record_(c, resume, mode, seed, workers)
+    except Diverge:
+        DIVERGED[0] += 1
+        return [dict(a="err:Diverge", full=False, idx=-1, src=-1, pos=-1, col=-9)]
+    finally:
+        signal.setitimer(signal.ITIMER_VIRTUAL, 0)
+        signal.signal(signal.SIGVTALRM, old)
+
+
+def record_(c, resume, mode, seed, workers=0):
     """Run the real sampler for cfg c and return the event list (never raises for repo-side failures)."""
     log = []
     try:
@@ -281,7 +366,7 @@ def full_cfg(c, seed):
     """add the sampler's own iteration per epoch (independent twin) so that the spec can predict raw indices"""
     c = dict(c)
     tw_log = []
-    cls = MainSampler if c["se"] else MainSamplerNoEpoch
+    cls = main_class(c)
     twin = cls(TagDataset(0, c["md"]), c["N"], seed, tw_log)
     c["miter"] = [twin.iteration(c["start"] + r) for r in range(epochs_needed(c))]
     return c
@@ -361,7 +446,11 @@ def random_cfg(r, big=True):
         eu = r.randint(1, 2 * UPE(g) + 1) if kinds[1] else 0
         es = r.randint(1, 2 * SPE(g) + 1) if kinds[2] else 0
         sides.append(dict(len=ln, dlen=dlen, bs=r.choice([0, 0, 1, 2, 3, 10]), ee=ee, eu=eu, es=es, iter=it))
-    return dict(g, kind=kind, budget=bud, start=st, se=r.random() < 0.9, miter=[], sides=sides)
+    se = r.random() < 0.85
+    # main sampler flavours: lazy generator / order fixed inside iter() / no set_epoch but a new order per iteration
+    # (the last one only without checkpoint: a resumed process cannot know how often it was iterated before)
+    mk = r.choice(["lazy", "eager"]) if se else (r.choice(["lazy", "stateful"]) if st == 0 else "lazy")
+    return dict(g, kind=kind, budget=bud, start=st, se=se, mk=mk, miter=[], sides=sides)
 
 
 # ---------------------------------------------------------------- TLC side
@@ -408,7 +497,7 @@ def validate(traces, name, jobs=8):
 def cfg_key(c, resume, mode):
     sides = ";".join(f"len{s['len']}/{s['dlen']},bs{s['bs']},ee{s['ee']},eu{s['eu']},es{s['es']}" for s in c["sides"])
     return (f"N={c['N']},B={c['B']},drop={int(c['drop'])},dl={c['dl']},{c['kind']}={c['budget']},start={c['start']},"
-            f"resume={resume},mode={mode},sides=[{sides}]")
+            f"resume={resume},mode={mode},sides=[{sides}]" + (f",main={c['mk']}" if c.get("mk", "lazy") != "lazy" else "") + (",epoch-reactive-sides" if c.get("react") else ""))
 
 
 def nontrivial(c):
@@ -550,6 +639,19 @@ def run(prop, tier, seed):
         c = random_cfg(r, big=False)
         c["start"] = 0
         add(c, "none", "dl", workers=(0 if i % 2 == 0 else 2))
+    react_ids = set()
+    if prop == "C06":
+        # interleaved samplers that react to set_epoch: only the comparison resumed stream vs uninterrupted stream counts
+        n_react = 0
+        while n_react < (60 if quick else 400):
+            c = random_cfg(r, big=True)
+            if c["budget"] == 0 or c["start"] == 0 or not any(s["len"] >= 2 for s in c["sides"]):
+                continue
+            c["react"] = True
+            n_react += 1
+            before = tid
+            add_with_twin(c, "epoch", "it")
+            react_ids |= set(range(before + 1, tid + 1))
 
     by_id = {t["id"]: t for t in traces}
     if prop == "C06":
@@ -584,6 +686,10 @@ def run(prop, tier, seed):
         c, resume, mode = meta[i]
         matched, expected = rej[i]
         got = t["ev"][matched] if matched < len(t["ev"]) else None
+        if t["ev"] and t["ev"][0]["a"] == "err:DivergeSkipped":
+            continue    # not run at all (see record): five observed non-terminating runs are reported already
+        if i in react_ids and resume == "none":
+            continue    # how a scheduler treats an epoch-reactive interleaved sampler is not specified; C06 compares streams
         if resume != "none":
             twin = by_id[twin_of[i]]
             if twin["id"] in acc or twin["id"] not in rej:
